@@ -138,6 +138,8 @@ pub mod verif_hooks {
     pub use crate::happy_eyeballs::{EyeballSet, HappyEyeballsError};
     #[cfg(feature = "server")]
     pub use crate::rewind::Rewind;
+    #[cfg(feature = "server")]
+    pub use crate::server::conn::auto::verif_read_version;
 }
 
 pub use body::Body;
